@@ -224,6 +224,24 @@ theorem C19_get_grad_exact (F : (ℕ → K) → K) (p0 : ℕ → K) (e : K) (he 
       rw [C19_grad_1s _ c0 c1 hF' _ _ hs h2]; ring
     · exact absurd ((C19_stencil_choice (p0 i) e).2.mpr hcen) hc
 
+/-- **every quadratic function of n parameters** `c + Σ bₖpₖ + Σ Aₖₗpₖpₗ`: `get_hess` returns exactly its Hessian `A + Aᵀ`, entry by
+    entry, at every point (zeros, tiny and negative values included) and for every eps ≠ 0 -/
+theorem C19_get_hess_quadratic (n : ℕ) (c : K) (b : ℕ → K) (A : ℕ → ℕ → K) (p0 : ℕ → K) (e : K) (he : e ≠ 0) (i j : ℕ)
+    (hi : i < n) (hj : j < n) :
+    getHessEntry (quadForm n c b A) p0 e i j = A i j + A j i := by
+  rcases lt_trichotomy i j with hlt | heq | hgt
+  · obtain ⟨u, v, huv⟩ := quadForm_plane n c b A p0 i j (ne_of_lt hlt) hi hj
+    exact (C19_get_hess_exact _ p0 e he i j hlt u v _ huv).1
+  · subst heq
+    obtain ⟨c0, c1, hc⟩ := quadForm_line n c b A p0 i hi
+    rw [C19_get_hess_exact_diag _ p0 e he i c0 c1 (A i i) hc]; ring
+  · obtain ⟨u, v, huv⟩ := quadForm_plane n c b A p0 j i (ne_of_lt hgt) hj hi
+    rw [(C19_get_hess_exact _ p0 e he j i hgt u v _ huv).2]; ring
+
+example : getHessEntry (quadForm 3 (1 : ℚ) (fun k => k) (fun k l => k + 2 * l)) (fun k => if k = 1 then 0 else 1 / 1000000) (1 / 100) 2 1
+    = (2 + 2 * 1) + (1 + 2 * 2) := by
+  rw [C19_get_hess_quadratic 3 _ _ _ _ _ (by norm_num) 2 1 (by norm_num) (by norm_num)]; norm_num
+
 /-- the matrix `get_hess` returns is symmetric (the loop mirrors the upper triangle) … -/
 theorem C19_hess_symm (F : (ℕ → K) → K) (p0 : ℕ → K) (e : K) (i j : ℕ) :
     getHessEntry F p0 e i j = getHessEntry F p0 e j i := by
@@ -280,6 +298,53 @@ theorem C19_boot_perm (n : ℕ) (H : Mat) (g g' : List (List ℚ)) (hp : g.Perm 
 
 example : statsOf 2 [[2, 1], [1, 3]] [[1, 2], [3, 1], [0, 1]] [1, 1] = statsOf 2 [[2, 1], [1, 3]] [[0, 1], [1, 2], [3, 1]] [1, 1] :=
   C19_boot_perm 2 _ _ _ (by decide) _
+
+/-! ## 3b. information equality: the closed form the adjusted statistics reduce to when J = H -/
+section InfoEq
+open Matrix
+variable {m : ℕ}
+
+/-- the generated matrix expressions over Mathlib's matrices -/
+noncomputable def matOps (m : ℕ) : MatOps (Matrix (Fin m) (Fin m) ℚ) ℚ where
+  dot := fun a b => a * b
+  inv := fun a => a⁻¹
+  transpose := Matrix.transpose
+  trace := Matrix.trace
+  entry00 := fun _ => 0
+
+/-- when the bootstrap variability of the score equals the observed information (J = H, the well-specified case) the Godambe
+    matrix H·J⁻¹·H is H itself and the LRT adjustment `len(nested)/trace(J·H⁻¹)` is 1: adjusted and unadjusted statistics coincide -/
+theorem C19_info_equality (H : Matrix (Fin m) (Fin m) ℚ) (hH : IsUnit H.det) (hm : m ≠ 0) :
+    godambe (matOps m) H H = H ∧ lrtAdjust (matOps m) (m : ℚ) H H = 1 := by
+  constructor
+  · simp only [godambe, matOps]
+    rw [Matrix.mul_nonsing_inv H hH, Matrix.one_mul]
+  · simp only [lrtAdjust, matOps]
+    rw [Matrix.mul_nonsing_inv H hH, Matrix.trace_one, Fintype.card_fin]
+    exact div_self (by exact_mod_cast hm)
+
+example : godambe (matOps 2) !![2, 1; 1, 3] !![2, 1; 1, 3] = !![2, 1; 1, 3] :=
+  (C19_info_equality _ (by simp [Matrix.det_fin_two]; norm_num) (by norm_num)).1
+
+end InfoEq
+
+/-! ## 3c. the closed forms the finite differences are compared with (linear Poisson models) -/
+
+/-- For a model whose expected spectrum is affine in its parameters (`M + t·B` along any parameter direction `B`), the exact
+    derivative of the Poisson log-likelihood `Σ (−M + d·log M)` (the `−log d!` term does not depend on the parameters) along `Bk` is the
+    score `Σ (−Bk + d·Bk/M)`, and the exact derivative of that score along `Bl` is `−Σ d·Bk·Bl/M²`: the observed information of
+    `get_godambe` is `H_kl = Σ d·Bk·Bl/M²`, its bootstrap scores are `g_k = Σ (boot/M − 1)·Bk`.  These are the closed forms L3 uses;
+    that the *finite-difference* values agree with them within O(eps²) is numerical (see `chk.unproved`). -/
+theorem C19_linear_poisson_exact_parts {ι : Type} (cells : Finset ι) (M Bk Bl d : ι → ℝ) (hM : ∀ i ∈ cells, M i ≠ 0) :
+    HasDerivAt (fun t : ℝ => ∑ i ∈ cells, (-(M i + t * Bk i) + d i * Real.log (M i + t * Bk i)))
+      (∑ i ∈ cells, (-(Bk i) + d i * Bk i / M i)) 0
+    ∧ HasDerivAt (fun t : ℝ => ∑ i ∈ cells, (-(Bk i) + d i * Bk i / (M i + t * Bl i)))
+      (-(∑ i ∈ cells, d i * Bk i * Bl i / M i ^ 2)) 0 :=
+  ⟨poisson_score cells M Bk d hM, poisson_info cells M Bk Bl d hM⟩
+
+example : HasDerivAt (fun t : ℝ => ∑ i ∈ Finset.range 2, (-((2 : ℝ) + t * 3) + 5 * Real.log (2 + t * 3)))
+    (∑ i ∈ Finset.range 2, (-(3 : ℝ) + 5 * 3 / 2)) 0 :=
+  (C19_linear_poisson_exact_parts (Finset.range 2) (fun _ => 2) (fun _ => 3) (fun _ => 3) (fun _ => 5) (by intro i _; norm_num)).1
 
 /-! ## 4. multinomial fits: θ is appended as the last parameter -/
 
